@@ -32,8 +32,10 @@ META = {
                     "caller does)", "names never end in .gz"],
 }
 
+# ("a/b" is a path prefix of "a/b/c": a file and a directory of the same
+# name can sit side by side when one of them carries the .gz suffix)
 NAMES = ["info", "transform.json", "mesh/10:0", "mesh/frag_a", "a/b/c",
-         "seg:1", "info_fullres.json", "mesh/10"]
+         "seg:1", "info_fullres.json", "mesh/10", "a/b"]
 KEYS = ["s0", "1um", "key:2"]
 MIMES = ["application/octet-stream", "application/json", "image/jpeg",
          "image/png"]
@@ -85,8 +87,8 @@ class FileStore(RuleBasedStateMachine):
                 level=st.sampled_from([0, 1, 9]),
                 via=st.sampled_from(["direct", "plain", "file",
                                      "precomputed_file"]),
-                file_mimes=st.lists(st.integers(0, 3), min_size=len(NAMES),
-                                    max_size=len(NAMES)),
+                file_mimes=st.lists(st.sampled_from([0, 0, 0, 1, 2, 3]),
+                                    min_size=len(NAMES), max_size=len(NAMES)),
                 key_mimes=st.lists(st.integers(0, 3), min_size=len(KEYS),
                                    max_size=len(KEYS)))
     @logged
@@ -99,7 +101,8 @@ class FileStore(RuleBasedStateMachine):
         os.makedirs(os.path.join(self.root, "ds_sibling"))
         self.cfg = {"flat": flat, "gzip": gz, "compresslevel": level}
         self.acc = self.make_writer(via)
-        self.file_mime = {n: MIMES[i] for n, i in zip(NAMES, file_mimes)}
+        self.file_mime = {n: MIMES[file_mimes[k % len(file_mimes)]]
+                          for k, n in enumerate(NAMES)}
         self.file_mime["info"] = "application/json"
         self.key_mime = {k: MIMES[i] for k, i in zip(KEYS, key_mimes)}
 
@@ -128,11 +131,25 @@ class FileStore(RuleBasedStateMachine):
     def fail(self, msg):
         self._ctx.fail("%s (config %s)" % (msg, self.cfg))
 
+    def path_conflict(self, name, mime):
+        """Does the path this name is stored under collide with a directory,
+        or one of its parent directories with a file?"""
+        gz = self.cfg["gzip"] and mime not in NO_GZ
+        target = os.path.join(self.base, name) + (".gz" if gz else "")
+        if os.path.isdir(target):
+            return True
+        p = os.path.dirname(target)
+        while len(p) > len(self.base):
+            if os.path.isfile(p):
+                return True
+            p = os.path.dirname(p)
+        return False
+
     def expect_path(self, rel, mime, content):
         gz = self.cfg["gzip"] and mime not in NO_GZ
         p = os.path.join(self.base, rel)
         if gz:
-            if os.path.exists(p):
+            if os.path.isfile(p):
                 self.fail("uncompressed file %s exists although compression "
                           "applies" % rel)
             if not os.path.isfile(p + ".gz"):
@@ -161,6 +178,23 @@ class FileStore(RuleBasedStateMachine):
           overwrite=st.booleans())
     @logged
     def store_file(self, i, content, overwrite):
+        self._do_store_file(i, content, overwrite)
+
+    @rule(first=st.booleans(), c1=content_st, c2=content_st)
+    @logged
+    def store_nested_names(self, first, c1, c2):
+        """A name and a name below it ("a/b" and "a/b/c"), in either order,
+        then both are fetched."""
+        pair = [NAMES.index("a/b"), NAMES.index("a/b/c")]
+        if first:
+            pair.reverse()
+        self._do_store_file(pair[0], c1, True)
+        self._do_store_file(pair[1], c2, True)
+        self.ops.add("nested_names")
+        for i in pair:
+            self._fetch_file(self.acc, NAMES[i], "same accessor")
+
+    def _do_store_file(self, i, content, overwrite):
         from neuroglancer_scripts.accessor import DataAccessError
         name = NAMES[i]
         mime = self.file_mime[name]
@@ -169,10 +203,16 @@ class FileStore(RuleBasedStateMachine):
             # every real caller stores a JSON object there (and the accessor
             # factory parses it): keep the generated history inside that
             content = INFOS[len(content) % len(INFOS)]
+        conflict = self.path_conflict(name, mime)
         try:
             self.acc.store_file(name, content, mime_type=mime,
                                 overwrite=overwrite)
         except DataAccessError:
+            if conflict:
+                # the file system cannot hold a file and a directory of one
+                # name: a refusal, nothing stored
+                self.ops.add("refused_name_conflict")
+                return
             if exists and not overwrite:
                 self.ops.add("refused_overwrite")
                 self.expect_path(name, mime, self.files[name])
